@@ -169,7 +169,7 @@ func genWide(r *gen.Rand) []seriesIn {
 
 // cardKs: label cardinalities around the reader's sampling constant (index.symbolFactor = 32: the
 // in-memory postings offset table keeps every 32nd value of a name plus the last one).
-var cardKs = [][]int{{1, 2, 31, 32, 33, 34}, {63, 64, 65, 66}, {96, 97}}
+var cardKs = [][]int{{1, 2, 3, 31, 32, 33, 34, 40}, {63, 64, 65, 66}, {96, 97, 100}}
 
 // genCard: a block in which label "kNNN" has exactly NNN distinct values, for every NNN of ks0
 // (plus `extra` random ones): series i carries kNNN = value(i mod NNN). Every series has one real
@@ -328,7 +328,7 @@ func (rn *runner) emit(r *gen.Rand, route, dir string, input []seriesIn, expecte
 	if err != nil {
 		d.OpenErr = err.Error()
 		d.Shape = route + "-open-error"
-		rn.cf.Add(curPool.wrap(fmt.Sprintf("mkCase %s %s\n %s\n %s\n %s\n (mkQ [] [] [] [] [] []) []", gallina.Z(int64(id)), gin, pkRaw(rb.Index), gallina.List(gsegs), rerr(classify(err)))))
+		rn.cf.Add(curPool.wrap(fmt.Sprintf("mkCase %s %s\n %s\n %s\n %s\n (mkQ [] [] [] [] [] [] []) []", gallina.Z(int64(id)), gin, pkRaw(rb.Index), gallina.List(gsegs), rerr(classify(err)))))
 		rn.meta.Case(id, d)
 		rn.meta.Evaluations++
 		rn.meta.Hit(route + "/open-error")
@@ -374,7 +374,7 @@ func (rn *runner) emit(r *gen.Rand, route, dir string, input []seriesIn, expecte
 		}
 	}
 	if msg := sortedConsistency(baseline); msg != "" {
-		rn.meta.GoViol = append(rn.meta.GoViol, gallina.GoViolation{ID: fmt.Sprint(id), Shape: "sorted-label-values-with-matchers", What: msg})
+		rn.meta.GoViol = append(rn.meta.GoViol, gallina.GoViolation{ID: fmt.Sprint(id), Shape: "api-answers-inconsistent", What: msg})
 	}
 	for _, lv := range o.LVals {
 		switch k := len(lv); {
